@@ -4,6 +4,7 @@
 package gen
 
 import (
+	"sort"
 	"math/big"
 	"math/rand"
 
@@ -63,7 +64,27 @@ var e18 = new(big.Int).Exp(big.NewInt(10), big.NewInt(18), nil)
 
 func nueOf(olt int64) *big.Int { return new(big.Int).Mul(big.NewInt(olt), e18) }
 
-// All returns every generator.
+var registry []Generator
+
+// Register adds a generator to the swarm (call from init()).
+func Register(g Generator) { registry = append(registry, g) }
+
+// All returns every registered generator, sorted by name (deterministic order).
 func All() []Generator {
-	return []Generator{Send{}, SendPool{}, Staking{}, NetDeleg{}, OlvmTransfer{}}
+	out := append([]Generator{}, registry...)
+	sort.Slice(out, func(i, j int) bool { return out[i].Name() < out[j].Name() })
+	return out
+}
+
+// ByName returns the named generators.
+func ByName(names ...string) []Generator {
+	var out []Generator
+	for _, n := range names {
+		for _, g := range registry {
+			if g.Name() == n {
+				out = append(out, g)
+			}
+		}
+	}
+	return out
 }
